@@ -118,6 +118,17 @@ def real_fragment(frag):
     tree = ast.parse(src)
     node = find_loop(tree.body[0], frag.selector)
     names = sorted(frag.env)
+
+    class _Ret(ast.NodeTransformer):
+        def visit_Return(self, n):      # a return of the enclosing function becomes the FragmentReturn outcome
+            return ast.copy_location(ast.Raise(exc=ast.Call(func=ast.Name(id='__FragmentReturn', ctx=ast.Load()), args=[], keywords=[]), cause=None), n)
+
+        def visit_FunctionDef(self, n):
+            return n
+
+        def visit_Lambda(self, n):
+            return n
+    node = _Ret().visit(node)
     body = [ast.For(target=ast.Name(id='__once', ctx=ast.Store()), iter=ast.Tuple(elts=[ast.Constant(0)], ctx=ast.Load()), body=node.body, orelse=[]),
             ast.Return(value=ast.Call(func=ast.Name(id='locals', ctx=ast.Load()), args=[], keywords=[]))]
     fd = ast.FunctionDef(name='__frag', args=ast.arguments(posonlyargs=[], args=[ast.arg(arg=n) for n in names], kwonlyargs=[], kw_defaults=[], defaults=[]),
@@ -125,8 +136,13 @@ def real_fragment(frag):
     mod = ast.Module(body=[fd], type_ignores=[])
     ast.fix_missing_locations(mod)
     ns = dict(vars(importlib.import_module(fn.__module__)))
+    ns['__FragmentReturn'] = FragmentReturn
     exec(compile(mod, '<fragment of %s>' % frag.func, 'exec'), ns)
     return lambda: ns['__frag'](**frag.env)
+
+
+class FragmentReturn(BaseException):
+    pass
 
 
 class NS:
